@@ -27,6 +27,9 @@ fn main() {
         if prop == "C10" && args[2] == "--emit-nonces" {
             return props::nonce::emit_first_nonces();
         }
+        if prop == "C10" && args[2] == "--fork-child" {
+            return props::nonce::fork_child();
+        }
         if args[2] == "--replay" {
             let Some(path) = args.get(3) else { report::machinery_error("--replay needs a file") };
             let txt = std::fs::read_to_string(path).unwrap_or_else(|_| report::machinery_error("cannot read replay file"));
